@@ -200,7 +200,10 @@ CLAIMED = {
              'all cells are congruent and there are nx*ny of them; for the hand model MeshOps.v of _remove_vertices / _remove_faces_only / '
              '_transfer_face_centroids_areas (run against Mesh2D/3D.remove_vertices and remove_faces_only): a surviving face references the '
              'same points as before, a face survives exactly when all its vertices do, per-face data filtered by the face pattern stays '
-             'aligned with the surviving faces. Searched: from_grid / from_polygon_grid / Face3D.mesh_grid (star, comb '
+             'aligned with the surviving faces; the generated Mesh2D._quad_to_triangles (its break loop translated as a flag-guarded fold) is '
+             'proved to take the diagonal 0-2 without further test exactly when all four corners of the quad turn the same way, and then '
+             'both triangles are wound like the quad and their signed areas add up to the quad\'s. Searched: from_grid / from_polygon_grid / '
+             'Face3D.mesh_grid (star, comb '
              'and holed shapes in rational planes, cell sizes 1/40..2x the extent, offsets, flip, centroids on/off) - congruent cells '
              'of the exactly computed adjusted size, corners inside the source shape (exact rational containment), reported areas / '
              'centroids / normals equal recomputed ones, normal direction; random removal patterns and triangulation keep per-face '
